@@ -114,7 +114,12 @@ func TestRouting(t *testing.T) {
 				}
 			}
 		}
-		sim, err := simkv.New(simkv.Options{Engine: engine, Partitions: n, Hosted: hosted})
+		// namespace life cycle: the name may have been used before with another partition count
+		stale := 0
+		if rapid.IntRange(0, 3).Draw(t, "recreated") == 0 {
+			stale = rapid.SampledFrom([]int{1, 2, 3, 4, 5, 8, 16}).Filter(func(x int) bool { return x != n }).Draw(t, "stale_partitions")
+		}
+		sim, err := simkv.New(simkv.Options{Engine: engine, Partitions: n, Hosted: hosted, StaleCreate: stale})
 		if err != nil {
 			t.Fatalf("HARNESS: %v", err)
 		}
@@ -258,12 +263,15 @@ func TestRouting(t *testing.T) {
 		}
 		sort.Strings(ls)
 		ls = append(ls, fmt.Sprintf("partitions_%d", n))
-		recRoute.Record(stats.HashString(fmt.Sprintf("%d|%d|%s", n, missing, strings.Join(canon, "\x1e"))), nt, ls, func() interface{} {
+		if stale > 0 {
+			ls = append(ls, "name_used_before_with_other_partition_count")
+		}
+		recRoute.Record(stats.HashString(fmt.Sprintf("%d|%d|%d|%s", n, missing, stale, strings.Join(canon, "\x1e"))), nt, ls, func() interface{} {
 			tr := trace
 			if len(tr) > 30 {
 				tr = tr[:30]
 			}
-			return map[string]interface{}{"engine": engine, "partitions": n, "not_hosted": missing, "trace": tr}
+			return map[string]interface{}{"engine": engine, "partitions": n, "not_hosted": missing, "failed_earlier_creation_with_partitions": stale, "trace": tr}
 		})
 	})
 }
